@@ -11,11 +11,15 @@ tier = "quick"
 for a in sys.argv:
     if a.startswith("--tier="):
         tier = a.split("=")[1]
+label = variant
+for a in sys.argv:
+    if a.startswith("--as="):
+        label = a.split("=")[1]
 sd = os.path.join(wt, "_seeded", variant)
 meta = json.load(open(os.path.join(sd, "meta.json")))
 prop = meta.get("property", "C??")
-env = dict(os.environ, PYTHONPATH=wt, KV_EVIDENCE_DIR="/dev/shm/kv_seed_ev_%s%s" % (prop, variant),
-           KV_REPLAY_DIR="/dev/shm/kv_seed_rp_%s%s" % (prop, variant))
+env = dict(os.environ, PYTHONPATH=wt, KV_EVIDENCE_DIR="/dev/shm/kv_seed_ev_%s%s" % (prop, label),
+           KV_REPLAY_DIR="/dev/shm/kv_seed_rp_%s%s" % (prop, label))
 
 
 def sh(cmd, cwd=None, timeout=3600):
@@ -50,7 +54,7 @@ rc, out = sh("/venv/bin/python %s/demo.py" % sd, "/tmp", 900)
 res["demo_without_change_rc"] = rc
 for d in (env["KV_EVIDENCE_DIR"], env["KV_REPLAY_DIR"]):
     shutil.rmtree(d, ignore_errors=True)
-dst = os.path.join("/verif/seeded", "%s-%s" % (prop, variant))
+dst = os.path.join("/verif/seeded", "%s-%s" % (prop, label))
 os.makedirs(dst, exist_ok=True)
 shutil.copy(os.path.join(sd, "patch.diff"), dst)
 shutil.copy(os.path.join(sd, "demo.py"), dst)
@@ -65,4 +69,4 @@ meta["what_we_ran"] = ("tools_seed.py: patch applied in a scratch worktree; demo
                        "bin/check %s --tier %s run against the patched worktree (PYTHONPATH)" % (",".join(checks), tier))
 meta["detected_by"] = [c for c, v in res["checks"].items() if v["rc"] == 1]
 json.dump(meta, open(os.path.join(dst, "meta.json"), "w"), indent=1)
-print(json.dumps({"id": "%s-%s" % (prop, variant), **res}, indent=1))
+print(json.dumps({"id": "%s-%s" % (prop, label), **res}, indent=1))
